@@ -19,6 +19,7 @@ type c10Case struct {
 	Hook   bool     `json:"on_panic_hook"`
 	OnErr  bool     `json:"on_error_handler"`
 	Cache  bool     `json:"caching"`
+	NoGlob bool     `json:"no_global_middleware"`
 }
 
 func c10Gen(tier string, emit func(c10Case)) {
@@ -26,7 +27,7 @@ func c10Gen(tier string, emit func(c10Case)) {
 	if tier == "thorough" {
 		maxPrefix = 4
 	}
-	for cfg := 0; cfg < 8; cfg++ {
+	for cfg := 0; cfg < 12; cfg++ {
 		if tier == "thorough" && cfg != 0 && cfg != 3 && cfg != 5 && cfg != 7 {
 			maxPrefix = 3
 		} else if tier == "thorough" {
@@ -34,7 +35,12 @@ func c10Gen(tier string, emit func(c10Case)) {
 		}
 		var rec func(p []string)
 		rec = func(p []string) {
-			emit(c10Case{Prefix: append([]string(nil), p...), Hook: cfg&1 != 0, OnErr: cfg&2 != 0, Cache: cfg&4 != 0})
+			if cfg >= 8 {
+				// routers without global middleware and with custom NotFound / NotAllowed chains
+				emit(c10Case{Prefix: append([]string(nil), p...), Hook: cfg&1 != 0, Cache: cfg&2 != 0, NoGlob: true})
+			} else {
+				emit(c10Case{Prefix: append([]string(nil), p...), Hook: cfg&1 != 0, OnErr: cfg&2 != 0, Cache: cfg&4 != 0})
+			}
 			if len(p) == maxPrefix {
 				return
 			}
@@ -48,7 +54,7 @@ func c10Gen(tier string, emit func(c10Case)) {
 
 func c10Run(c c10Case, st *fw.Stats) []fw.Viol {
 	var vs []fw.Viol
-	cfg := kindCfg{Hook: c.Hook, OnError: c.OnErr, Cache: c.Cache}
+	cfg := kindCfg{Hook: c.Hook, OnError: c.OnErr, Cache: c.Cache, NoGlobal: c.NoGlob}
 	for _, last := range kindNames {
 		st.Evals++
 		base := newKindRouter(cfg).do(last, nil)
@@ -71,7 +77,7 @@ func c10Run(c c10Case, st *fw.Stats) []fw.Viol {
 				sig = "pristine:response"
 			}
 			if len(vs) < 6 {
-				vs = append(vs, fw.Viol{Sig: sig, Msg: fmt.Sprintf("router{hook=%v onError=%v cache=%v} history [%s] then %q: observed %s; as the first request on a fresh identical router: %s", c.Hook, c.OnErr, c.Cache, strings.Join(c.Prefix, ", "), last, got, base)})
+				vs = append(vs, fw.Viol{Sig: sig, Msg: fmt.Sprintf("router{hook=%v onError=%v cache=%v noGlobalMiddleware=%v} history [%s] then %q: observed %s; as the first request on a fresh identical router: %s", c.Hook, c.OnErr, c.Cache, c.NoGlob, strings.Join(c.Prefix, ", "), last, got, base)})
 			}
 		}
 	}
@@ -84,14 +90,14 @@ func c10Run(c c10Case, st *fw.Stats) []fw.Viol {
 var c10Spec = fw.Spec[c10Case]{
 	ID:    "C10",
 	Level: "model_checking",
-	Rule: "complete enumeration: all request histories of length <=3 (thorough 4, and 5 on four of the eight router configurations) over 15 request kinds (handler stores values / records errors / aborts / sets status and writes / replaces c.Resp / replaces c.Req / calls SetHandlers / dynamic routes with params / 404 / 405 / panics / re-dispatches with HandleContext / issues a nested ServeHTTP / copies the context) x {OnPanic hook} x {OnError handler} x {caching}; a probe installed as first global middleware snapshots Data, Params, Errors, abort state, status, length, chain length, writer and request identity at entry; " +
+	Rule: "complete enumeration: all request histories of length <=3 (thorough 4, and 5 on four of the eight router configurations) over 18 request kinds (handler stores values / records errors / aborts / sets status and writes / replaces c.Resp / replaces c.Req / calls SetHandlers / dynamic routes with params / 404 / 405 / panics / re-dispatches with HandleContext / issues a nested ServeHTTP / copies the context) x {OnPanic hook} x {OnError handler} x {caching}, plus four configurations without any global middleware and with custom NotFound / NotAllowed chains; a probe installed as first global middleware snapshots Data, Params, Errors, abort state, status, length, chain length, writer and request identity at entry; " +
 		"differential oracle: the last request observes exactly what it observes as first request on a fresh identical router; non-trivial = history whose last request really ran on a context used earlier in the history (pointer identity)",
 	Assume: []string{"sync.Pool is the real one here (reuse is counted, not forced); the controlled pool of C03 forces reuse deterministically"},
 	Bounds: func(tier string) map[string]any {
 		if tier == "quick" {
-			return map[string]any{"kinds": len(kindNames), "history_length": 3, "router_configs": 8}
+			return map[string]any{"kinds": len(kindNames), "history_length": 3, "router_configs": 12}
 		}
-		return map[string]any{"kinds": len(kindNames), "history_length": "4 (5 on 4 configurations)", "router_configs": 8}
+		return map[string]any{"kinds": len(kindNames), "history_length": "4 (5 on 4 configurations)", "router_configs": 12}
 	},
 	Gen: c10Gen,
 	Run: c10Run,
